@@ -288,6 +288,9 @@ def run(res, tier):
         v["interpreter_flags"] = ["-OO"]
     r["outcomes"] = ["-OO:" + o for o in r["outcomes"]]
     res.merge_worker(r)
+    from ..common import hostile_runs
+
+    hostile_runs(res, "mc.checks.c16", "_flag_work", [[["1"], "list"], [["1", "2"], "list"], [["0", "1", "0.5"], "tuple"], [["1"] * 8, "list"], [["3.4", "0.1", "7"], "list"]])
     vs = list(ew.small_vectors(3 if tier == "quick" else 5)) + ew.families() + ew.families_large() + [["1"] * n for n in range(1, 65)] + extreme_vectors()
     units = [(v, kind) for v in vs for kind in (("list", "tuple") if len(v) <= 3 or len(v) in (8, 64) else ("list",))]
     for w in pmap(_work, permuted(units, "c16"), chunk=16):
@@ -301,6 +304,10 @@ def run(res, tier):
 
 
 def replay(data):
+    if data.get("host_environment"):
+        from ..common import replay_in_host
+
+        return replay_in_host(data, "mc.checks.c16", "_flag_work", [[data["case"]["weights"], data["case"]["pop"]]])
     fn = impl.binning.deterministic_choice
     case = data["case"]
     if data.get("kind") == "choice:odd-equiv":
